@@ -129,7 +129,7 @@ fn base_cfg(property: &str, tier: &str) -> JobCfg {
         detect_divergence: false,
         want: Want::Halted,
         profile: profile_name().to_string(),
-        job_time_cap_s: if thorough { 120 } else { 3 },
+        job_time_cap_s: if thorough { 20 } else { 3 },
         twice: false,
     }
 }
@@ -263,34 +263,17 @@ fn jobs_for(progs: &[(String, String)], ws: &[u32]) -> Vec<Job> {
         let fam = if e.0.starts_with("REPO") { "REPO".to_string() } else if e.0.starts_with("EXH") { if corpus::needs_solver(&e.1) { "EXH-s".to_string() } else { "EXH-c".to_string() } } else { e.0.clone() };
         fams.entry(fam).or_default().push(e);
     }
+    // plain round-robin over the families: the small targeted families are covered completely
+    // before the time box ends, the big enumerated ones (EXH, RAND) fill the rest
     let mut order: Vec<&(String, String)> = Vec::new();
     let total: usize = progs.len();
-    let mut idx: std::collections::BTreeMap<String, f64> = fams.keys().map(|k| (k.clone(), 0.0)).collect();
-    let mut taken: std::collections::BTreeMap<String, usize> = fams.keys().map(|k| (k.clone(), 0)).collect();
-    // weighted interleaving: each family advances proportionally to its size
+    let mut pos: std::collections::BTreeMap<String, usize> = fams.keys().map(|k| (k.clone(), 0)).collect();
     while order.len() < total {
         for (k, v) in fams.iter() {
-            let share = v.len() as f64 / total as f64;
-            let acc = idx.get_mut(k).unwrap();
-            *acc += share * fams.len() as f64;
-            let t = taken.get_mut(k).unwrap();
-            while *acc >= 1.0 && *t < v.len() {
+            let t = pos.get_mut(k).unwrap();
+            if *t < v.len() {
                 order.push(v[*t]);
                 *t += 1;
-                *acc -= 1.0;
-            }
-            if share * (fams.len() as f64) < 1.0 && *t < v.len() && *acc >= 0.5 {
-                // small families are not starved
-            }
-        }
-        // flush stragglers when all accumulators are below 1
-        if fams.iter().all(|(k, v)| taken[k] >= v.len() || idx[k] < 1.0) {
-            for (k, v) in fams.iter() {
-                let t = taken.get_mut(k).unwrap();
-                if *t < v.len() {
-                    order.push(v[*t]);
-                    *t += 1;
-                }
             }
         }
     }
@@ -379,7 +362,7 @@ fn plan(property: &str, tier: &str) -> Option<Plan> {
             let mut cfg = base_cfg(property, tier);
             cfg.detect_divergence = true;
             cfg.want = Want::Limited;
-            cfg.job_time_cap_s = if thorough { 120 } else { 4 };
+            cfg.job_time_cap_s = if thorough { 20 } else { 4 };
             let nb = budgets.len();
             Some(Plan {
                 property: property.into(),
@@ -412,7 +395,7 @@ fn plan(property: &str, tier: &str) -> Option<Plan> {
             };
             let mut cfg = base_cfg(property, tier);
             cfg.io = IoCfg { eof_forks: if thorough { 3 } else { 2 }, out_fault_forks: if thorough { 12 } else { 6 }, in_fault_forks: if thorough { 6 } else { 3 }, out_fault_ok0: false };
-            cfg.job_time_cap_s = if thorough { 120 } else { 4 };
+            cfg.job_time_cap_s = if thorough { 20 } else { 4 };
             let mut jobs = jobs_for(&progs, &ws);
             // the Ok(0) flavour of a refused write, on the programs that write
             let extra: Vec<Job> = jobs.iter().filter(|j| j.code.contains('.') && j.width == 8).map(|j| Job { ok0: true, ..j.clone() }).collect();
@@ -459,7 +442,7 @@ fn plan(property: &str, tier: &str) -> Option<Plan> {
             let mut cfg = base_cfg(property, tier);
             cfg.detect_divergence = true;
             cfg.want = Want::Divergence;
-            cfg.job_time_cap_s = if thorough { 120 } else { 4 };
+            cfg.job_time_cap_s = if thorough { 20 } else { 4 };
             Some(Plan {
                 property: property.into(),
                 jobs: jobs_for(&progs, &ws),
@@ -1080,7 +1063,7 @@ fn run_c11(tier: &str) -> i32 {
         ref_steps: if thorough { 200_000 } else { 20_000 },
         timeout_ms: if thorough { 60_000 } else { 4_000 },
         eof_forks: if thorough { 4 } else { 2 },
-        job_cap: Duration::from_secs(if thorough { 120 } else { 3 }),
+        job_cap: Duration::from_secs(if thorough { 20 } else { 3 }),
         levels: vec![0, 1, 2, 3],
     };
     let time_box = Duration::from_secs(if thorough { 1200 } else { 170 });
@@ -1234,4 +1217,58 @@ pub fn corpus_for_dev() -> Vec<String> {
 
 pub fn corpus_tagged() -> Vec<(String, String)> {
     corpus_programs("quick", false).0
+}
+
+fn memreplay_typed<C: hpbf::CellType>(size: i64, offset: i64, start: i64, end: i64) -> Option<String> {
+    use hpbf::runtime::Memory;
+    let mut mem = Memory::<C>::new();
+    if size > 0 {
+        mem.make_accessible(0, size as isize);
+    }
+    // distinct contents
+    for i in 0..size {
+        mem.write(i as isize, C::from_u64((i as u64).wrapping_mul(2654435761).wrapping_add(1)));
+    }
+    mem.mov(offset as isize);
+    let before: Vec<u64> = (0..size).map(|i| mem.read((i - offset) as isize).into_u64()).collect();
+    mem.make_accessible(start as isize, end as isize);
+    for i in start..end {
+        if !mem.check(i as isize) {
+            return Some(format!("after make_accessible({}, {}) offset {} is not accessible", start, end, i));
+        }
+    }
+    for i in 0..size {
+        let now = mem.read((i - offset) as isize).into_u64();
+        if now != before[i as usize] {
+            return Some(format!("logical cell {} changed from {} to {} across the reallocation", i, before[i as usize], now));
+        }
+    }
+    None
+}
+
+pub fn memreplay(cell_bytes: u32, size: i64, offset: i64, start: i64, end: i64) -> i32 {
+    if !(0..=1 << 20).contains(&size) || offset.abs() > 1 << 20 || start.abs() > 1 << 20 || end.abs() > 1 << 20 || start >= end {
+        println!("geometry too large to replay natively");
+        return 3;
+    }
+    let r = std::panic::catch_unwind(|| match cell_bytes {
+        1 => memreplay_typed::<u8>(size, offset, start, end),
+        2 => memreplay_typed::<u16>(size, offset, start, end),
+        4 => memreplay_typed::<u32>(size, offset, start, end),
+        _ => memreplay_typed::<u64>(size, offset, start, end),
+    });
+    match r {
+        Ok(Some(s)) => {
+            println!("REPRODUCED: Memory<u{}> with size {} and pointer at {}: {}", cell_bytes * 8, size, offset, s);
+            1
+        }
+        Ok(None) => {
+            println!("NOT-REPRODUCED: the native Memory behaves as specified on this geometry");
+            0
+        }
+        Err(_) => {
+            println!("REPRODUCED: the native call panicked on this geometry");
+            1
+        }
+    }
 }
